@@ -244,10 +244,11 @@ def run_real(exe, case, timeout=20, keep_dir=False):
             shutil.rmtree(d, ignore_errors=True)
 
 _PROMPTS = {}
-_PROBE = b"zq1 <- 1\nzq2 <- 2\nIF TRUE THEN\nzq1 <- 3\nENDIF\n\nzq3 <- 1\n"
+_PROBE = b"zq1 <- 1\nzq2 <- 2\nIF TRUE THEN\nzq1 <- 3\nENDIF\n\nzq3 <- 1\n?\nzq4 <- 1\n"
+STD_HELP = b"Visit https://github.com/SingularityT3/PseudoEngine2 for syntax, examples and more info\nUse `RUNFILE <filename>` to run programs stored in files\n"
 
 def learn_prompts(exe):
-    """(banner, prompt, continuation prompt) of this binary's REPL, learned from a probe session; None when they cannot be
+    """(banner, prompt, continuation prompt, text printed for '?') of this binary's REPL, learned from a probe session; None when they cannot be
     told apart (then the historical '> ' / '. ' are assumed). The properties do not fix these texts, so the harness must not."""
     if exe in _PROMPTS: return _PROMPTS[exe]
     res = None
@@ -255,10 +256,10 @@ def learn_prompts(exe):
     try:
         p = subprocess.run([exe], input=_PROBE, capture_output=True, cwd=d, timeout=20)
         segs = p.stdout.split(MARK)
-        if len(segs) >= 5 and segs[1] and segs[3] == segs[1] and segs[0].endswith(segs[1]) and segs[2].startswith(segs[1]):
+        if len(segs) >= 6 and segs[1] and segs[3] == segs[1] and segs[5] == segs[1] and segs[0].endswith(segs[1]) and segs[2].startswith(segs[1]) and segs[4].startswith(segs[1]):
             P = segs[1]; rest = segs[2][len(P):]
             if rest and len(rest) % 3 == 0 and rest == rest[:len(rest) // 3] * 3:
-                res = (segs[0][:-len(P)], P, rest[:len(rest) // 3])
+                res = (segs[0][:-len(P)], P, rest[:len(rest) // 3], segs[4][len(P):])
     except Exception:
         res = None
     finally:
@@ -269,21 +270,26 @@ def learn_prompts(exe):
 def normalise_repl(exe, out, stdin):
     """REPL stdout with the banner removed and this binary's prompts replaced by the standard '> ' / '. '"""
     pr = learn_prompts(exe)
-    if pr is None or (pr[1], pr[2]) == (b"> ", b". "):
+    if pr is None or (pr[1], pr[2], pr[3]) == (b"> ", b". ", STD_HELP):
         # the banner is whatever precedes the first prompt
         if pr is not None and out.startswith(pr[0]): return out[len(pr[0]):]
         k = out.find(b"> ")
         return out[k:] if k >= 0 else BANNER_RE.sub(b"", out, count=1)
-    banner, P, C = pr
+    banner, P, C, H = pr
     if out.startswith(banner): out = out[len(banner):]
-    from prof_expr import continuation_counts
+    from prof_expr import continuation_counts, entry_heads
     ks = continuation_counts(stdin)
+    heads = entry_heads(stdin)
     segs = out.split(MARK)
     for j, sg in enumerate(segs):
         head = b""
+        if sg.startswith(P) and j < len(heads) and heads[j] == b"?" and sg[len(P):] == H:
+            segs[j] = b"> " + STD_HELP
+            continue
         if sg.startswith(P):
             head += b"> "; sg = sg[len(P):]
-            for _ in range(ks[j] if j < len(ks) else 0):
+            # (end of input inside a block: one more continuation prompt is printed before the end is noticed)
+            for _ in range((ks[j] if j < len(ks) else 0) + (1 if j >= len(ks) - 1 else 0)):
                 if sg.startswith(C): head += b". "; sg = sg[len(C):]
         segs[j] = head + sg
     return MARK.join(segs)
